@@ -22,7 +22,7 @@ ASSUMPTIONS = ["reference solver gbsv/refmix.py; tolerance 1e-6 relative as the 
                "contradictory specifications may be refused by an exception or by generable False (the latter is recorded as an "
                "observation); only generable True is a violation"]
 
-SIZES = {"quick": 48000, "thorough": 1200000}
+SIZES = {"quick": 48000, "thorough": 600000}
 SMI = ["CC", "CCC", "CCCC", "CCO", "c1ccccc1", "CCN", "OCCO"]
 
 
